@@ -19,6 +19,10 @@ LINES = ["", "a", "a b", " lead", "-", "-x", "12", "123", "1234", "250", "250 x"
          # characters that str.splitlines() treats as line boundaries but the wire format does not
          "a\x0cb", "a\x0bb", "a\x1db", "a\x85b", "a\u2028b", "a\rb"]
 REDUCED = ["", "a", " lead", "-x", "250 x", "250-x", "251 y", "é"]
+# text that is not in a Unicode normalisation form (decomposed accents, singletons, compatibility characters, marks out
+# of canonical order): the same code points come out as went in
+UNI = ["cafe\u0301", "\u212bngstro\u0308m", "\u2126", "\uf900", "a\u0323\u0307", "a\u0307\u0323", "\ufb01", "\u2460",
+       "\u1100\u1161", "\u0344", "A\u030a"]
 CODES12 = ["100", "150", "200", "211", "226", "250", "257", "331", "421", "451", "500", "550"]
 
 
@@ -123,9 +127,11 @@ def work(item):
                                            replay={"single": [code, line]})
                 part.states.add(code)
         elif kind == "multi":
-            code, n, mode = payload
+            code, n, mode = payload[:3]
             raw = b""
             alpha = LINES if n <= 2 else (REDUCED if n <= 4 else ["a", " lead", "250 x", "-x"])
+            if len(payload) > 3:
+                alpha = UNI + ["a"] if n <= 2 else UNI[:4] + ["a"]
             for lines in itertools.product(alpha, repeat=n):
                 if mode and n < 2:
                     continue
@@ -388,6 +394,10 @@ def build_items(tier):
         items.append(("multi", ("211", 5, mode)))
         if tier != "quick":
             items.append(("multi", ("150", 6, mode)))
+    for code in ("250", "257", "211"):
+        for n in (1, 2, 3):
+            for mode in (False, True):
+                items.append(("multi", (code, n, mode, "uni")))
     for code in ("250", "211"):
         for mode in (False, True):
             items.append(("pairs", (code, mode)))
@@ -424,7 +434,7 @@ def run(tier, seed, t0):
         k = seed % len(items)
         items = items[k:] + items[:k]
     part = report.merge_all(report.pmap(work, items))
-    bounds = {"codes_single_line": 1000, "codes_multi_line": 5 if tier == "quick" else 12, "line_alphabet": LINES,
+    bounds = {"codes_single_line": 1000, "codes_multi_line": 5 if tier == "quick" else 12, "line_alphabet": LINES, "non_normalised_unicode_lines": UNI,
               "line_counts": "1..5 (4 and 5 over reduced alphabets)" if tier == "quick" else "1..6", "modes": ["plain", "list"],
               "segmentations": "all single cuts, all double cuts for streams <= 24 bytes, byte-by-byte",
               "pairs": "reduced alphabet, second reply in 3 shapes",
